@@ -47,6 +47,8 @@ def body(chk):
                          key='burgers_equation:eval_exact_%s:2arg' % f_,
                          replay=pde.make_replay(chk, b, 'eval_exact_' + f_, [X, Y], two, part))
             val.append((b, 'eval_exact_' + f_, [X, Y], two))
+    import c09
+    c09.add_type_purity(chk, ['laplace', 'burgers'])
     chk.solve_all()
     pde.validate_terms(chk, val, npoints=2 if chk.tier == 'quick' else 6)
 
